@@ -12,7 +12,15 @@ META = dict(
               "executable monitor with client sessions; unbounded theorems over all wf configurations without "
               "include_service<>, all ranges, types and MTUs; tie: generated server<> instantiations (fixed handles, gaps, "
               "16/128 bit uuids), range sweeps over handles / gap interiors / service ends and closed-loop discovery",
-    level_note="see docs/C02.md")
+    level_note="PROVED (unbounded, wf configurations without include_service<>): the abstract discover_all theorem; Read By Group "
+               "Type in full (byte-exact response = non-empty prefix of matching / Not Found iff empty; discover_all exact); Find "
+               "Information: Not Found iff empty, response = first matching attribute + a subsequence of the rest (in range, typed, "
+               "ascending), prefix and discover_all exact if the uuid formats are uniform; Read By Type (out_size <= 257): entries "
+               "are a subsequence of matching, Not Found if nothing matches, and (all out_size) a Read By Type Response whenever a "
+               "readable attribute matches. REFUTED (known findings, not repaired because baseline "
+               "unit tests assert the behaviour): prefix / enumerate-exact for Find Information across a 16/128 bit format change and "
+               "for Read By Type across a value length change. MONITORED / TIED ONLY: the monitor-level statement, Read By Type "
+               "byte level for out_size > 257, maximality of responses. See docs/C02.md")
 
 
 class C02(AttBase):
